@@ -64,6 +64,20 @@ func (ts *treeStorage) IsRequested(id TreeID) bool {
 	return ok && tree == nil
 }
 
+// SetIfRequested stores the tree if its id is still registered and not received,
+// and tells whether it did: the test and the store are one critical section
+func (ts *treeStorage) SetIfRequested(tree *Tree) bool {
+	ts.Lock()
+	defer ts.Unlock()
+
+	if t, ok := ts.trees[tree.ID]; !ok || t != nil {
+		return false
+	}
+	ts.cancelDeletion(tree.ID)
+	ts.trees[tree.ID] = tree
+	return true
+}
+
 // Get returns the tree if it exists or nil
 func (ts *treeStorage) Get(id TreeID) *Tree {
 	ts.Lock()
